@@ -15,8 +15,51 @@ pub mod fasta {
     use core::slice;
     use core::iter::Iterator as StdIterator;
     use vstd::std_specs::iter::IteratorSpec;
+    use vstd::std_specs::iter::DoubleEndedIteratorSpec;
+    use std::borrow::Cow;
     verus! {
 //@default vis=strip r12=.
+
+    /// Local stand-ins for the std iterator traits so that the crate's `impl Iterator for ..` headers can be kept verbatim.
+    /// The byte-view protocol (it_lawful / it_views / iv) is what the generic writer functions rely on:
+    /// a lawful iterator yields items whose byte views are it_views(), in order, and then stays exhausted.
+    trait Iterator {
+        type Item;
+        #[verifier::prophetic] spec fn it_pre(&self) -> bool;
+        spec fn it_lawful(&self) -> bool;
+        #[verifier::prophetic] spec fn it_views(&self) -> Seq<Seq<u8>>;
+        spec fn iv(x: &Self::Item) -> Seq<u8>;
+        fn next(&mut self) -> (r: Option<Self::Item>)
+            requires old(self).it_pre()
+            ensures final(self).it_pre(), final(self).it_lawful() == old(self).it_lawful(),
+                old(self).it_lawful() ==> (
+                    (old(self).it_views().len() == 0 ==> r is None && final(self).it_views().len() == 0)
+                    && (old(self).it_views().len() > 0 ==> (r matches Some(x) && Self::iv(&x) == old(self).it_views()[0])
+                            && final(self).it_views() == old(self).it_views().drop_first()));
+        /// std's default
+        fn size_hint(&self) -> (r: (usize, Option<usize>))
+            requires self.it_pre()
+        { (0, None) }
+    }
+    mod iter {
+        pub use core::iter::{Zip, Skip, Take};
+        use vstd::prelude::*;
+        verus! { pub(super) trait IntoIterator { type Item; type IntoIter; spec fn ii_pre(self) -> bool; fn into_iter(self) -> Self::IntoIter requires self.ii_pre(); } }
+    }
+    trait DoubleEndedIterator: Iterator {
+        fn next_back(&mut self) -> (r: Option<Self::Item>)
+            requires old(self).it_pre()
+            ensures final(self).it_pre(), final(self).it_lawful() == old(self).it_lawful(),
+                old(self).it_lawful() ==> (
+                    (old(self).it_views().len() == 0 ==> r is None && final(self).it_views().len() == 0)
+                    && (old(self).it_views().len() > 0 ==> (r matches Some(x) && Self::iv(&x) == old(self).it_views().last())
+                            && final(self).it_views() == old(self).it_views().drop_last()));
+    }
+    trait ExactSizeIterator: Iterator {
+        fn len(&self) -> (r: usize)
+            requires self.it_pre()
+            ensures self.it_lawful() ==> r == self.it_views().len();
+    }
 
 //@item lib::try_opt
 //@item lib::unwrap_or
@@ -801,6 +844,124 @@ pub mod fasta {
 //@spec
         ensures
             [C05|fasta.bufpos.reset] final(self).start == start && final(self).seq_pos@.len() == 0,
+//@end
+}
+
+    // =============================================================================================
+    // views of one record
+    // =============================================================================================
+    impl BufferPosition {
+        /// offset list as ints
+        spec fn l(&self) -> Seq<int> { spv(self.seq_pos@) }
+        /// header without '>' and line terminator
+        spec fn head_v(&self, b: Seq<u8>) -> Seq<u8> { trim(b.subrange(self.start + 1, self.l()[0])) }
+        /// number of sequence lines
+        spec fn nlines(&self) -> int { self.l().len() - 1 }
+        /// i-th sequence line without terminator
+        spec fn line_v(&self, b: Seq<u8>, i: int) -> Seq<u8> { trim(b.subrange(self.l()[i] + 1, self.l()[i + 1])) }
+        spec fn lines_v(&self, b: Seq<u8>) -> Seq<Seq<u8>> { Seq::new(self.nlines() as nat, |i: int| self.line_v(b, i)) }
+        /// what rwf gives about the offsets
+        proof fn lemma_offsets(&self, b: Seq<u8>)
+            requires self.rwf(b)
+            ensures self.l().len() == self.seq_pos@.len(), self.seq_pos@.len() >= 1,
+                    self.start < self.l()[0],
+                    forall|i: int| 0 <= i < self.l().len() ==> self.l()[i] == #[trigger] self.seq_pos@[i] as int,
+                    forall|i: int, j: int| 0 <= i < j < self.l().len() ==> #[trigger] self.l()[i] < #[trigger] self.l()[j],
+                    forall|i: int| 0 <= i < self.l().len() ==> self.start < #[trigger] self.l()[i] <= b.len(),
+                    forall|i: int| 0 <= i < self.l().len() - 1 ==> b[#[trigger] self.l()[i]] == 10u8,
+        {
+            let sp = self.l();
+            let e = sp.last();
+            lemma_lfs_bounds(b, self.start as int, e);
+            let ls = lfs(b, self.start as int, e);
+            assert forall|i: int| 0 <= i < sp.len() implies self.start < #[trigger] sp[i] <= b.len() by {
+                if i < ls.len() { assert(sp[i] == ls[i]); assert(b[ls[i]] == 10u8); }
+            }
+            assert forall|i: int, j: int| 0 <= i < j < sp.len() implies #[trigger] sp[i] < #[trigger] sp[j] by {
+                assert(sp[i] == ls[i]);
+                if j < ls.len() { assert(sp[j] == ls[j]); }
+            }
+            assert forall|i: int| 0 <= i < sp.len() - 1 implies b[#[trigger] sp[i]] == 10u8 by { assert(sp[i] == ls[i]); }
+        }
+    }
+
+    /// concatenation of byte strings
+    pub open spec fn concat(ls: Seq<Seq<u8>>) -> Seq<u8>
+        decreases ls.len()
+    {
+        if ls.len() == 0 { Seq::<u8>::empty() } else { concat(ls.drop_last()) + ls.last() }
+    }
+
+//@item fasta::SeqLines
+    impl<'a> SeqLines<'a> {
+        #[verifier::prophetic]
+        spec fn rem(&self) -> Seq<(&'a usize, &'a usize)> { self.pos_iter.remaining() }
+        /// byte view of the line between two stored offsets
+        spec fn piece(&self, p: (&'a usize, &'a usize)) -> Seq<u8> { trim(self.data@.subrange(*p.0 + 1, *p.1 as int)) }
+        #[verifier::prophetic]
+        spec fn swf(&self) -> bool {
+            &&& self.pos_iter.obeys_prophetic_iter_laws()
+            &&& forall|i: int| 0 <= i < self.rem().len() ==> *(#[trigger] self.rem()[i]).0 + 1 <= *self.rem()[i].1 <= self.data@.len()
+        }
+        #[verifier::prophetic]
+        spec fn views(&self) -> Seq<Seq<u8>> { Seq::new(self.rem().len(), |i: int| self.piece(self.rem()[i])) }
+    }
+
+//@impl_open fasta::Iterator for SeqLines::next
+//@item fasta::Iterator for SeqLines::Item
+    #[verifier::prophetic]
+    spec fn it_pre(&self) -> bool { self.swf() }
+    spec fn it_lawful(&self) -> bool { true }
+    #[verifier::prophetic]
+    spec fn it_views(&self) -> Seq<Seq<u8>> { self.views() }
+    spec fn iv(x: &&'a [u8]) -> Seq<u8> { (*x)@ }
+//@fn fasta::Iterator for SeqLines::next ret=r tags=C20,C13,C12,C06
+//@spec
+        ensures
+            [C20,C13|fasta.SeqLines.next.frame] final(self).data == old(self).data,
+            [C20|fasta.SeqLines.next.exact_len] final(self).swf(),
+//@closure 0 params="vx_p: (&'a usize, &'a usize)" bind=vx_p expect_names=start,next_start ret="(q: &'a [u8])"
+            requires *vx_p.0 + 1 <= *vx_p.1 <= self.data@.len()
+            [C12,C13|fasta.SeqLines.next.item_is_trimmed_line] ensures q@ == trim(self.data@.subrange(*vx_p.0 + 1, *vx_p.1 as int))
+//@tail vx_r
+        proof {
+            assert(old(self).rem().len() > 0 ==> self.views() =~= old(self).views().drop_first());
+            assert(old(self).rem().len() == 0 ==> self.views() =~= Seq::<Seq<u8>>::empty());
+        }
+//@end
+//@fn fasta::Iterator for SeqLines::size_hint ret=r tags=C20
+//@spec
+        ensures
+            [C20|fasta.SeqLines.size_hint] r.0 == self.views().len() && r.1 == Some(self.views().len() as usize),
+//@end
+}
+
+//@impl_open fasta::DoubleEndedIterator for SeqLines::next_back
+//@fn fasta::DoubleEndedIterator for SeqLines::next_back ret=r tags=C20,C13,C12,C06
+//@spec
+        ensures
+            [C20,C13|fasta.SeqLines.next_back.frame] final(self).data == old(self).data,
+            [C20|fasta.SeqLines.next_back.exact_len] final(self).swf(),
+//@body_start
+        proof {
+            assert(self.rem().len() > 0 ==> *self.rem()[self.rem().len() - 1].0 + 1 <= *self.rem()[self.rem().len() - 1].1 <= self.data@.len());
+        }
+//@closure 0 params="vx_p: (&'a usize, &'a usize)" bind=vx_p expect_names=start,next_start ret="(q: &'a [u8])"
+            requires *vx_p.0 + 1 <= *vx_p.1 <= self.data@.len()
+            [C12,C13|fasta.SeqLines.next_back.item_is_trimmed_line] ensures q@ == trim(self.data@.subrange(*vx_p.0 + 1, *vx_p.1 as int))
+//@tail vx_r
+        proof {
+            assert(old(self).rem().len() > 0 ==> self.views() =~= old(self).views().drop_last());
+            assert(old(self).rem().len() == 0 ==> self.views() =~= Seq::<Seq<u8>>::empty());
+        }
+//@end
+}
+
+//@impl_open fasta::ExactSizeIterator for SeqLines::len
+//@fn fasta::ExactSizeIterator for SeqLines::len ret=r tags=C20
+//@spec
+        ensures
+            [C20|fasta.SeqLines.len] r == self.views().len(),
 //@end
 }
 
